@@ -42,6 +42,9 @@ def run(run):
         # "after stop() is accepted ... the actor finishes": stop() must really enqueue its marker
         # (waiting send on self.sender), otherwise an accepted stop can be lost
         sendrules.stop_marker(run, f, sendpaths.get(f), rule="O7.3")
+        # "finishes the work accepted before that point": a dequeued message is never skipped (the blanket handler future
+        # runs the user's handler exactly once on every path)
+        sendrules.handle_message_impl(run, f, rule="O7.3")
         no_starvation(run, lc)
         upgrade_table(run, f)
         # O7.3: closed channel / stop marker => on_stop(false), Completed{killed:false}
